@@ -277,7 +277,11 @@ impl LruDiskCache {
                         remove_path
                     );
                 } else {
-                    panic!(
+                    // Outside interference (e.g. the entry was replaced by a
+                    // directory). The entry is forgotten all the same: a panic
+                    // here would poison the mutex around the cache and fail
+                    // every later request.
+                    error!(
                         "Error removing file from cache: `{:?}`: {}, {:?}",
                         remove_path,
                         e,
